@@ -10,6 +10,7 @@ import (
 	"fmt"
 	"math/rand/v2"
 	"os"
+	"os/exec"
 	"path/filepath"
 	"runtime"
 	"strings"
@@ -27,6 +28,7 @@ import (
 )
 
 func init() {
+	vf.Register(&vf.Check{ID: "C01CHILD", Rule: "child worker of C01 (not a property check)", Run: child})
 	vf.Register(&vf.Check{
 		ID:    "C01",
 		Level: "exploration",
@@ -118,6 +120,98 @@ func clip(s string) string {
 	return s
 }
 
+// ---- process-level restarts: the history is played by a chain of child
+// processes on an on-disk backend, each child handling a range of blocks and
+// exiting, so that process-global caches (amino type cache, pkg-id cache,
+// stdlib load cache) are cold too.
+
+func child(c *vf.Ctx) {
+	var seed uint64
+	var nBlocks, from, to int
+	fmt.Sscan(os.Getenv("C01_SEED"), &seed)
+	fmt.Sscan(os.Getenv("C01_BLOCKS"), &nBlocks)
+	fmt.Sscan(os.Getenv("C01_FROM"), &from)
+	fmt.Sscan(os.Getenv("C01_TO"), &to)
+	var stream uint64
+	fmt.Sscan(os.Getenv("C01_STREAM"), &stream)
+	backend, dir, out := os.Getenv("C01_BACKEND"), os.Getenv("C01_DIR"), os.Getenv("C01_OUT")
+	c.Seed = int64(seed / 1000)
+	rng := c.Rng(stream)
+	h := hist.Gen(rng, seed, nBlocks, 6)
+	db, err := dbm.NewDB("app", dbm.BackendType(backend), dir)
+	if err != nil {
+		panic(err)
+	}
+	var ch *chainsim.Chain
+	initKey := ""
+	if from < 0 { // genesis + first block
+		ch, err = chainsim.New(chainsim.Options{DB: db, NoStdlibCache: true})
+		if err != nil {
+			panic(err)
+		}
+		r := ch.InitChain(hist.Genesis(ch))
+		if r.Error != nil {
+			panic(r.Error)
+		}
+		initKey = chainsim.InitKey(r)
+		ch.RunBlock()
+		from = 0
+	} else {
+		ch, err = chainsim.Reopen(chainsim.Options{DB: db, NoStdlibCache: true})
+		if err != nil {
+			panic(err)
+		}
+		ch.SyncAll(append([]string{"erin", "frank"}, hist.Users...)...)
+	}
+	hist.PlayRange(ch, h, from, to)
+	os.WriteFile(out, []byte(initKey+"\x00"+chainsim.TraceKey(ch.Trace)), 0o644)
+	ch.Close()
+	c.Case("a", true)
+	c.Case("b", true)
+}
+
+func playInChildren(c *vf.Ctx, seed uint64, stream uint64, nBlocks int, backend string, cuts []int, tag string) (string, string, error) {
+	dir := filepath.Join(c.WorkDir, tag)
+	os.MkdirAll(dir, 0o755)
+	bounds := append([]int{-1}, cuts...)
+	bounds = append(bounds, nBlocks)
+	initKey, trace := "", ""
+	for i := 0; i+1 < len(bounds); i++ {
+		from, to := bounds[i], bounds[i+1]
+		if i == 0 {
+			to = bounds[1]
+		}
+		out := filepath.Join(dir, fmt.Sprintf("trace-%d", i))
+		cmd := exec.Command(os.Args[0], "C01CHILD", "quick")
+		f := from
+		if i > 0 {
+			f = bounds[i]
+		}
+		cmd.Env = append(os.Environ(), fmt.Sprintf("C01_SEED=%d", seed), fmt.Sprintf("C01_STREAM=%d", stream), fmt.Sprintf("C01_BLOCKS=%d", nBlocks), fmt.Sprintf("C01_FROM=%d", f), fmt.Sprintf("C01_TO=%d", to),
+			"C01_BACKEND="+backend, "C01_DIR="+filepath.Join(dir, "db"), "C01_OUT="+out, "VERIF_OUT="+filepath.Join(dir, "childout"), "VERIF_RACE_LOG=")
+		if b, err := cmd.CombinedOutput(); err != nil {
+			return "", "", fmt.Errorf("child %d (blocks %d..%d) failed: %v\n%s", i, f, to, err, tailStr(string(b), 1500))
+		}
+		b, err := os.ReadFile(out)
+		if err != nil {
+			return "", "", err
+		}
+		parts := strings.SplitN(string(b), "\x00", 2)
+		if i == 0 {
+			initKey = parts[0]
+		}
+		trace += parts[1]
+	}
+	return initKey, trace, nil
+}
+
+func tailStr(s string, n int) string {
+	if len(s) > n {
+		return s[len(s)-n:]
+	}
+	return s
+}
+
 func run(c *vf.Ctx) {
 	nHist := c.N(2, 16)
 	nBlocks := c.N(8, 30)
@@ -162,6 +256,26 @@ func run(c *vf.Ctx) {
 			}
 		}
 		refCh.Close()
+		// process-level restart variant (one history in quick, all in thorough)
+		if hi == 0 || !c.Quick() {
+			cuts := []int{nBlocks / 2}
+			if !c.Quick() {
+				cuts = []int{nBlocks / 3, 2 * nBlocks / 3}
+			}
+			backend := []string{"pebbledb", "goleveldb"}[hi%2]
+			in, tr, err := playInChildren(c, h.Seed, uint64(100+hi), nBlocks, backend, cuts, fmt.Sprintf("h%d-procs", hi))
+			c.Case(fmt.Sprintf("%d/process-restarts-%s", h.Seed, backend), true)
+			c.Count("process_level_restarts", len(cuts))
+			w := map[string]any{"history": h, "variant": "process-restarts", "backend": backend, "cuts": cuts}
+			switch {
+			case err != nil:
+				c.Violation("variant-error:process-restarts", w, "process-restart variant failed to run: %v", err)
+			case in != refInit:
+				c.Violation("initchain-differs:process-restarts", w, "InitChain tx responses differ when genesis runs in a fresh process with a cold stdlib load: %s", firstDiff(refInit, in))
+			case tr != refTrace:
+				c.Violation("trace-differs:process-restarts", w, "block trace differs when the history is played by separate processes (cuts %v, %s): %s", cuts, backend, firstDiff(refTrace, tr))
+			}
+		}
 		for k, n := range labels {
 			c.Count("tx:"+k, n)
 		}
@@ -215,8 +329,9 @@ func run(c *vf.Ctx) {
 		c.Logf("history %d: %d ok / %d failed txs, %d variants compared", hi, ok, fail, len(variants))
 	}
 	c.Assume("the reference run is the same code: only divergence between runs is detected, not a deterministic wrong result")
-	c.Assume("restarts are in-process (process-global caches survive); cgo backends not included")
+	c.Assume("most restart variants are in-process (process-global caches survive); one variant per history plays the blocks in separate child processes on an on-disk backend; cgo backends not included")
 	c.Require("succeeded txs", c.Counter("tx:store/ok"), 5)
 	c.Require("failed txs", c.Counter("tx:fail/fail")+c.Counter("tx:oog/fail"), 2)
 	c.Require("restarts", c.Counter("restarts"), 5)
+	c.RequireCounter("process_level_restarts", 1)
 }
